@@ -79,19 +79,25 @@ impl Writer {
                 need,
                 block.limit
             );
-            FileStateTracker::set_block_unlocked(block.id as usize);
+            // Allocate the next block first: if that fails (oversized entry, file creation
+            // error) the current block must stay unsealed, otherwise it ends up both in the
+            // reader chain and as the active block and its entries are delivered twice.
+            // SAFETY: We hold `current_block` and `current_offset` mutexes, so
+            // this writer has exclusive ownership of the active block. The
+            // allocator's internal lock ensures unique block handout.
+            let new_block = unsafe { self.allocator.alloc_block(need) }?;
             let mut sealed = block.clone();
             sealed.used = *cur;
-            sealed.mmap.flush()?;
+            if let Err(e) = sealed.mmap.flush() {
+                FileStateTracker::set_block_unlocked(new_block.id as usize);
+                return Err(e);
+            }
+            FileStateTracker::set_block_unlocked(block.id as usize);
             let _ = self.reader.append_block_to_chain(&self.col, sealed);
             debug_print!("[writer] appended sealed block to chain: col={}", self.col);
             #[cfg(walrus_verif)]
             crate::wal::verif::sched_point("w_after_seal");
             // switch to new block
-            // SAFETY: We hold `current_block` and `current_offset` mutexes, so
-            // this writer has exclusive ownership of the active block. The
-            // allocator's internal lock ensures unique block handout.
-            let new_block = unsafe { self.allocator.alloc_block(need) }?;
             debug_print!(
                 "[writer] switched to new block: col={}, new_block_id={}",
                 self.col,
